@@ -487,7 +487,7 @@ def run():
 
     # ---------------- generated documents
     t0 = time.time()
-    ndocs = 6000 if thorough else 700
+    ndocs = 9000 if thorough else 1100
     model_cases = []
     for i in range(ndocs):
         spec = cc.gen_doc(ck.rng, ALL_MODES if i % 4 else MODEL_MODES, p_noalpha=0.04)
@@ -510,7 +510,7 @@ def run():
             if d:
                 report("reopen-changes-result:group-new-unpatched", {"spec": spec, "color": col, "alpha": al}, d, "same result after save + open")
         # model correspondence on sub-viewports (model modes only)
-        if i % 4 == 0 and len(model_cases) < (1500 if thorough else 160):
+        if i % 4 == 0 and len(model_cases) < (2500 if thorough else 250):
             vp, vkind = gen_viewport(ck.rng, *spec["size"])
             if vkind not in ("degenerate",):
                 try:
